@@ -126,9 +126,9 @@ Lemma with_offset_self s : sh_offset s < 2 ^ xw (s_cls s) -> with_offset s (sh_o
 Proof. intros H. destruct s; cbn in *. unfold with_offset; cbn. f_equal. unfold wrap. now apply N.mod_small. Qed.
 
 Lemma keeps_quiet s s' : keeps s s' -> quiet s -> quiet s'.
-Proof. intros [->| ->] Q; [exact Q|]. unfold quiet in *. exact Q. Qed.
+Proof. intros [->|[_ ->]] Q; [exact Q|]. unfold quiet in *. exact Q. Qed.
 Lemma keeps_cls s s' : keeps s s' -> s_cls s' = s_cls s.
-Proof. intros [->| ->]; reflexivity. Qed.
+Proof. intros [->|[_ ->]]; reflexivity. Qed.
 
 Theorem save_twice_noseg junk el0 os h0 bound :
   os_bad os = false -> el_hdr el0 = Some h0 -> el_segs el0 = [] -> Forall quiet (el_secs el0) ->
